@@ -42,7 +42,7 @@ def run_docs(ctx, rep, profile, maxstmts, owner):
     import_pvl()
     fails = []
     for config in loaders.CONFIGS:
-        cases = emit(ctx, rep, config, profile, maxstmts)
+        cases = emit(ctx, rep, config, profile, maxstmts[config] if isinstance(maxstmts, dict) else maxstmts)
         jobs = []
         for c in cases:
             lay = c["lay"]
